@@ -803,6 +803,18 @@ def finish(ctx, results, meta, extra_results=()):
                            "; ".join(x[1] for x in r.failed[:3]) + " | " + text[-300:]
                 inconcl.append(r)
         else:
+            # The solver side gave no verdict (time, memory, a construct outside the interpreted fragment - e.g. accesses through a pointer made from an
+            # integer).  If the obligation carries a generic probe vector, the native harness (real code + exact oracle) is run on it: a failure there is a
+            # violation of the property demonstrated on the real code, reported as such and labelled as found by the probe, not by the solver.
+            if getattr(r.ob, "probe_inputs", None) and len(violations) < MAX_REPLAYS and "build:" not in (r.detail or ""):
+                ok, text, rpath = native_replay(ctx, r.ob, r.ob.probe_inputs, "%dq" % len(violations))
+                if ok:
+                    r.status = "FAIL"
+                    r.failed = [("probe", "solver side inconclusive (%s); the native harness fails on the obligation's probe operands" % (r.detail or "")[:160], "", "")]
+                    r.replay = {"reproduced": True, "path": rpath, "text": text[-1500:], "found_by": "native probe after an inconclusive solver run"}
+                    n_fail += 1
+                    violations.append(r)
+                    continue
             n_inc += 1
             inconcl.append(r)
     for x in extra_results:
